@@ -279,7 +279,7 @@ func (x *l2run) regex() {
 					if sameObs(refs[i], fo) != sameObs(lref, lo) {
 						panic(fmt.Sprintf("c07 harness error: fq differs between data driven and literal form: %s on %s: %v vs %v", lit, inText, fo, lo))
 					}
-					if !sameObs(lref, lo) {
+					if !sameObs(lref, lo) && !x.d.classify(lit, in, lref, lo) {
 						x.d.violate("L2:"+f.name, lit, in, lref, lo, regexClass(pfs[i].p, pfs[i].f))
 					}
 				}
@@ -526,12 +526,9 @@ func (x *l2run) fromjsonValue() {
 					r.Count("documented_divergence:string key on a non-object decode value gives null", 1)
 					continue
 				}
-				if t := viaToValue(prog); true {
-					if so, _ := d.fq.run(t, in); sameObs(ref, so) {
-						d.fromjsonDecodeValue(prog, in, ref, fo)
-						dvPairs[q+" @ "+jqType(w)] = true
-						continue
-					}
+				if d.classify(prog, in, ref, fo) {
+					dvPairs[q+" @ "+jqType(w)] = true
+					continue
 				}
 				d.violate("L2:fromjson-value", prog, in, ref, fo, "probe="+q+",value="+jqType(w))
 			}
